@@ -55,7 +55,16 @@ def _tokens(values, raw=False):
             out.append(NDV)
         elif isinstance(v, str):
             m = _LABEL.match(v)
-            out.append(NDV if v == "" else int(m.group(1)) if m else v)
+            if v == "":
+                out.append(NDV)
+            elif m:
+                out.append(int(m.group(1)))
+            else:
+                try:  # a table with TEXT columns renders its numeric columns as text too ('11011.0')
+                    f = float(v)
+                    out.append(NDV if np.isnan(f) else int(f) if f == int(f) else f)
+                except ValueError:
+                    out.append(v)
         elif isinstance(v, float) and np.isnan(v):
             out.append("nan-in-file" if raw else NDV)
         elif raw and isinstance(v, float) and abs(v - FLOAT_NDV) < 1e-40:
@@ -311,8 +320,8 @@ class Scene:
                 vals = arr[:]
                 if vals.dtype.names:  # Surveys: keep the Depth column
                     data = _tokens(vals[vals.dtype.names[0]], raw=True)
-                elif vals.dtype.kind in "OSU":
-                    data = [v.decode() if isinstance(v, bytes) else str(v) for v in vals.tolist()]
+                elif vals.dtype.kind in "OSU":  # uid strings stay as they are, TEXT labels become tokens
+                    data = _tokens(vals, raw=True)
                 else:
                     data = _tokens(vals, raw=True)
             labels[lab.replace("⁄", "/")] = {"rows": rows, "data": data}
